@@ -21,6 +21,9 @@ const (
 	idValIsZero     = M + "event/crdt.Value.IsZero"
 	idValSetValue   = M + "event/crdt.Value.setValue"
 	idDurableStore  = M + "event/crdt.Durable.store"
+	idMapAdd        = M + "event/crdt.Map.Add"
+	idMapDel        = M + "event/crdt.Map.Del"
+	idMapHas        = M + "event/crdt.Map.Has"
 )
 
 func init() {
@@ -50,6 +53,7 @@ func runC04(c *core.Ctx) {
 	// store after every write (Add, Del and Merge), otherwise two replicas holding the same
 	// entries answer differently (shared with C14.R2)
 	c14R2as(c, "C04.R7")
+	c04R8(c, "C04.R8")
 }
 
 // mergeKernels returns the functions containing the LWW kernels: for each production
@@ -574,4 +578,106 @@ func c04Wire(c *core.Ctx) {
 	ne := len(eng.Calls(enc, false, "github.com/golang/snappy.Encode"))
 	nd := len(eng.Calls(dec, false, "github.com/golang/snappy.Decode"))
 	c.Check(ne == 2 && nd == 1, rule, "State.Encode/DecodeState:compression", enc.Pos(), "every encoded state is snappy-compressed and DecodeState decompresses first", fmt.Sprintf("snappy.Encode calls in Encode: %d (want 2), snappy.Decode calls in DecodeState: %d (want 1)", ne, nd))
+}
+
+// c04R8: replicated event keys are written and read at the same offsets, and events are
+// routed to the subset of their own type.
+func c04R8(c *core.Ctx, rule string) {
+	c.Rule(rule, "event key layout agreement: Subscription.Key/Connection.Key write Peer at [0:8] and Conn at [8:16] (Subscription: ssid word i at [16+4i:20+4i]) and decodeSubscription/decodeConnection read the same ranges; State.Add/Del/Has address subsets[ev.unitType()] with ev.Key(); the three unitType() constants are distinct", 5)
+	type rng struct{ lo, hi int64 }
+	collect := func(f *ssa.Function, callee string, argIdx int) map[string]bool {
+		out := map[string]bool{}
+		for _, call := range eng.Calls(f, false, callee) {
+			a := eng.CallArgs(call.Common())
+			sl, ok := eng.StripConv(a[argIdx]).(*ssa.Slice)
+			if !ok {
+				continue
+			}
+			lo, isLo := eng.ConstInt(sl.Low)
+			hi, isHi := eng.ConstInt(sl.High)
+			if sl.Low == nil {
+				lo, isLo = 0, true
+			}
+			if isLo && isHi {
+				out[fmt.Sprintf("%d:%d", lo, hi)] = true
+				continue
+			}
+			// loop word
+			var phis []ssa.Value
+			eng.Instrs(f, func(in ssa.Instruction) {
+				if p, ok := in.(*ssa.Phi); ok {
+					phis = append(phis, p)
+					// rotated range loops use phi+1 as the index
+					if refs := p.Referrers(); refs != nil {
+						for _, r := range *refs {
+							if bo, ok := r.(*ssa.BinOp); ok && bo.Op == token.ADD {
+								if k, ok := eng.ConstInt(bo.Y); ok && k == 1 {
+									phis = append(phis, bo)
+								}
+							}
+						}
+					}
+				}
+			})
+			for _, iv := range phis {
+				la, lb, ok1 := affine(sl.Low, iv, 0)
+				ha, hb, ok2 := affine(sl.High, iv, 0)
+				if ok1 && ok2 && la != 0 {
+					out[fmt.Sprintf("%di+%d:%di+%d", la, lb, ha, hb)] = true
+					break
+				}
+			}
+		}
+		return out
+	}
+	str := func(m map[string]bool) string {
+		var ks []string
+		for k := range m {
+			ks = append(ks, k)
+		}
+		sort.Strings(ks)
+		return strings.Join(ks, " ")
+	}
+	for _, k := range []struct{ typ, dec, want string }{
+		{"Subscription", "decodeSubscription", "0:8 4i+16:4i+20 8:16"},
+		{"Connection", "decodeConnection", "0:8 8:16"},
+	} {
+		w := c.P.Func("internal/event", k.typ, "Key")
+		r := c.P.Func("internal/event", "", k.dec)
+		if w == nil || r == nil {
+			c.Undecided(rule, "anchor:"+k.typ, token.NoPos, "anchor missing: "+k.typ+".Key / "+k.dec)
+			continue
+		}
+		ws := collect(w, "encoding/binary.bigEndian.PutUint64", 1)
+		for s := range collect(w, idBEPutUint32, 1) {
+			ws[s] = true
+		}
+		rs := collect(r, "encoding/binary.bigEndian.Uint64", 1)
+		for s := range collect(r, idBEUint32, 1) {
+			rs[s] = true
+		}
+		c.Check(str(ws) == k.want && str(rs) == k.want, rule, k.typ+":key layout", w.Pos(), "writer and reader use ["+k.want+"]", fmt.Sprintf("%s.Key writes [%s], %s reads [%s], expected [%s]", k.typ, str(ws), k.dec, str(rs), k.want))
+	}
+	for _, m := range []struct{ name, op string }{{"Add", idMapAdd}, {"Del", idMapDel}, {"Has", idMapHas}} {
+		f := fn(c, rule, "internal/event", "State", m.name)
+		if f == nil {
+			continue
+		}
+		calls := eng.Calls(f, false, m.op)
+		ok := len(calls) == 1
+		if ok {
+			a := eng.CallArgs(calls[0].Common())
+			// receiver = st.subsets[ev.unitType()], key = ev.Key()
+			lk, isLk := eng.StripConv(a[0]).(*ssa.Lookup)
+			ok = isLk
+			if ok {
+				_, isSub := eng.LoadOfField(lk.X, "subsets")
+				ut, isCall := lk.Index.(*ssa.Call)
+				ok = isSub && isCall && ut.Call.IsInvoke() && ut.Call.Method.Name() == "unitType" && ut.Call.Value == f.Params[1]
+			}
+			kc, isKC := a[1].(*ssa.Call)
+			ok = ok && isKC && kc.Call.IsInvoke() && kc.Call.Method.Name() == "Key" && kc.Call.Value == f.Params[1]
+		}
+		c.Check(ok, rule, fnName(f)+":routes by unit type", f.Pos(), "subsets[ev.unitType()]."+m.name+"(ev.Key(), …)", "State."+m.name+" does not address subsets[ev.unitType()] with ev.Key()")
+	}
 }
